@@ -704,10 +704,10 @@ def run_program(cx, group, program):
     except Violation as v:
         if group.split(":")[0] in OWN_SIGNATURE_GROUPS:
             g0 = group.split(":")[0]
-            if g0 == "replace-with-cached-field" and v.kind == "noncanonical-text-rewritten":
-                # a column that was read before is written from its parsed values: decided in the lazy table, the same
-                # for every format
-                return "%s:%s" % (g0, v.kind), v.message
+            if v.kind == "noncanonical-text-rewritten" and replaced_fields(program):
+                # a column that was not replaced is written from parsed values instead of its source text: decided in
+                # the lazy table, the same for every format and for both groups
+                return "replace-with-cached-field:%s" % v.kind, v.message
             return "%s:%s:%s:%s" % (g0, v.kind, fam, cx.eol), v.message
         if v.kind in ("crlf-newline-dropped", "crlf-rewritten-to-lf", "noncanonical-text-rewritten"):
             # bed / bed6 / narrowPeak / vcf share DelimitedBuffer._get_buffer_extractor
